@@ -427,3 +427,52 @@ def drained_logged(ctx, rule):
                "the drained dirty-page set is walked with %s and its remainder is never consumed: the trailing pages are removed from the "
                "tracker but not logged" % lossy[0].name.rsplit("::", 1)[-1], (lossy or [f.calls[0]])[0].loc())
     ctx.floor(rule + ".drain_sites", n2, 3)
+
+
+def unwrapped_mutations(ctx, rule):
+    """Under the precondition `WAL enabled` (branch edges of `wal_enabled.load()` pruned), every B-tree mutation reachable in a SQL
+    DML entry point (and the closures it builds on feasible branches) must go through the dirty-tracking wrapper
+    (BTree over WalStoragePerTable). One obligation per raw site, keyed entry:method#ordinal (ordinal among the raw sites of that
+    method in that entry, in source order) so that a newly added raw site always yields a new key."""
+    import dmlrules
+    from paths import assumed_cuts, atomic_load_of
+    m = ctx.m
+    WAL_ON = [atomic_load_of("wal_enabled", True)]
+    total_wrapped = 0
+    for e in ("insert", "update", "update_from", "delete"):
+        f = m.fn(dmlrules.ENTRIES[e])
+        cuts, applied = assumed_cuts(f, WAL_ON)
+        reach = f.reachable([0], cut_edges=cuts)
+        group = [(f, None)]
+        for g in all_closures(m, f):
+            built = [bb for bb, b in enumerate(f.blocks) for st in b["s"]
+                     if st[0] == "=" and st[2][0] == "agg" and st[2][1] == "closure" and st[2][2] == g.id]
+            group.append((g, built))
+        raw, wrapped = [], 0
+        for g, built in group:
+            if built is not None and built and not any(bb in reach for bb in built):
+                continue  # closure only constructed on the WAL-off branch
+            for c in g.calls:
+                if not (c.name.startswith("btree::tree::BTree::") and c.name.rsplit("::", 1)[-1] in ("insert", "delete", "update", "insert_append")):
+                    continue
+                if built is None and c.bb not in reach:
+                    continue
+                if "WalStoragePerTable" in c.full.split(">::")[0]:
+                    wrapped += 1
+                else:
+                    raw.append(c)
+        total_wrapped += wrapped
+        ctx.stat("%s.%s.wal_branches" % (rule, e), len(applied))
+        ctx.stat("%s.%s.wrapped" % (rule, e), wrapped)
+        ok_entry = wrapped > 0 and len(applied) > 0
+        ctx.ob(rule + ".WRAPPED-PATH", e, ok_entry, "%d wrapped mutation site(s) on %d WAL branch(es)" % (wrapped, len(applied)) if ok_entry else
+               "%s has no B-tree mutation through the dirty-tracking wrapper on its WAL branch: nothing it writes is logged" % e, f.loc())
+        ordn = {}
+        for c in sorted(raw, key=lambda c: (c.line, c.bb)):
+            meth = c.name.rsplit("::", 1)[-1]
+            k = ordn.get(meth, 0)
+            ordn[meth] = k + 1
+            ctx.ob(rule, "%s:%s#%d" % (e, meth, k), False,
+                   "BTree::%s reachable with WAL enabled writes the mmap directly (storage not wrapped in WalStoragePerTable): the page is neither "
+                   "dirty-tracked nor logged, so a committed change to it is absent from the log" % meth, c.loc())
+    ctx.floor(rule + ".wrapped_sites", total_wrapped, 10)
